@@ -310,7 +310,7 @@ class stepwise_run:
         return c.And(lookup_inv(c, self._selector._lookup), self.interval >= 0)
 
     def writes(c, self):
-        return [(self.target, "demand")]
+        return [("all", f, lambda x: True) for f in ("supply", "demand", "utilisation", "allocation")]
 
     raises = {"trio.Cancelled": lambda c, self, exc: True}
 
@@ -320,7 +320,8 @@ class stepwise_run:
                 "same-target-and-interval": c.And(L.target == c.old(L.self).target, L.self.target == L.target, L.interval.same(c.old(L.self).interval),
                                                   c.unchanged(L.self, "_selector", "target", "interval")),
             },
-            modifies=lambda c, L: [(L.self.target, "demand"), ("trace",)],
+            # between two iterations the task sleeps: every pool's state may change meanwhile
+            modifies=lambda c, L: [("all", f, lambda x: True) for f in ("supply", "demand", "utilisation", "allocation")] + [("trace",)],
             local_types={"current_rule": Rule, "demand": TOpt(NumX)},
             step=lambda c, L, L0: _stepwise_iteration(c, L, L0),
         )
@@ -340,7 +341,8 @@ def _stepwise_iteration(c, L, L0):
     return {
         "exactly-one-rule-applied-to-target-and-interval": c.And(rule_ev, c.Implies(result == None, c.n_events() == 2), c.Implies(result != None, c.n_events() == 3)),
         "the-rule-with-greatest-threshold-not-above-supply-else-base": rule_selected(c, tbl, tgt0.supply, applied),
-        "demand-untouched-when-rule-returns-None": c.Implies(result == None, c.And(L.target.demand.same(tgt0.demand), sleep_ev(1))),
-        "demand-set-to-exactly-the-result-otherwise": c.Implies(result != None, c.And(c.event_at(1) == c.event("store", L.target, "demand", result), L.target.demand.same(result), sleep_ev(2))),
+        # stated on the trace: the iteration's only effects are these events (the pool itself may move while the task sleeps)
+        "no-demand-write-when-rule-returns-None": c.Implies(result == None, c.And(c.n_events() == 2, sleep_ev(1))),
+        "demand-set-to-exactly-the-result-otherwise": c.Implies(result != None, c.And(c.event_at(1) == c.event("store", L.target, "demand", result), sleep_ev(2))),
         "step-then-one-sleep-of-interval": c.Or(sleep_ev(1), sleep_ev(2)),
     }
